@@ -1,20 +1,23 @@
 /-
 C15 — Bulk ingest acknowledges exactly what it stored.  Property theorems only.
+(The vocabulary — a request as a list of actions `Act`, the per-action specification `Act.status`, `finalStatus`,
+`finalItems`, `docsOf`, `finalDocsOf` — is defined in Lemmas/C15.lean and Lemmas/C15Store.lean.)
 
 For EVERY bulk body (as a sequence of actions over any number of index names, each with or without its document
 line, optionally followed by an incomplete final action and/or a trailing newline), every index-name predicate,
-every alias table and every store behaviour:
+every alias table and every store behaviour, for the code as repaired (c15-3, c15-5):
  * the response has exactly one item per action, in order; an item's status depends only on its own action and
-   document (locality); the `errors` flag is true iff some item is not `created`        (C15.1, C15.3, C15.4)
- * the documents accepted by the loop are exactly those of the `created` items, in order, each with the index
-   name of ITS action                                                                  (C15.2)
+   document and on whether the store took the batch of its index; `errors` is true iff some item is not `created`
+                                                                              (C15.1, C15.3, C15.4, C15.5)
+ * the documents accepted by the loop are exactly those the loop answers `created`, in order, each with the index
+   name of ITS action; a `.kibana` document, which nothing stores, is never answered created   (C15.2, C15.9)
  * after the loop every accepted document is handed to the store exactly once, in the ONE batch of its own index
    name, in request order; no batch contains a document of another index name; every batch passes
-   ProcessIndexRequestPle's checks and reaches the store under the real index of its name   (C15.5, C15.6)
- * "created ⇒ stored" itself is FALSE for the code as it is: the error of the store call is only logged, the
-   response never depends on the store (C15.7).  The full statement, its counterexample, and the partial
-   statement under the decidable guard "the store accepts every batch of this request" — which is exactly the
-   class where it holds (C15.8) — with the locality of a store failure (only the refused index loses documents).
+   ProcessIndexRequestPle's checks and reaches the store under the real index of its name   (C15.6, C15.7)
+ * created ⇔ stored, at full strength: for every index name, what the store took is — as a list, so with order
+   and multiplicity — the documents of the actions whose RESPONSE ITEM is `created` (C15.8); a store failure is
+   local to its index (C15.8a) and is reported on exactly the items of the refused batch (C15.8b).
+The same statement is refuted for the code before each of the two repairs (`…_old_counterexample_…`).
 (The loop statements were false before the two `fix:` commits e6f2a3b / 1f7d4e3 — see known_findings.txt.)
 -/
 import SigModel.Model.Bulk
@@ -22,110 +25,37 @@ import SigModel.Lemmas.C15
 import SigModel.Lemmas.C15Store
 
 namespace SigModel.Props.C15
-open SigModel.Bulk
+open SigModel.Bulk SigModel.Lemmas.C15
 
-/-- an action of the request: a one-line action (delete / unknown / malformed), or an
-index/create/update action followed by its document line -/
-inductive Action where
-  | single (l : Line)
-  | withDoc (a doc : Line)
-deriving Repr, DecidableEq
-
-def Action.lines : Action → List Line
-  | .single l => [l]
-  | .withDoc a d => [a, d]
-
-/-- what the request syntax guarantees about the abstraction of a line -/
-def Action.wf : Action → Prop
-  | .single l => l.kind = Kind.other ∧ 0 < l.len
-  | .withDoc a d => a.kind ≠ Kind.other ∧ 0 < a.len ∧ 0 < d.len
-
-/-- the per-action specification: depends on nothing but the action itself (and the index-name predicate) -/
-def status (env : Env) : Action → Status
-  | .single _ => .failed
-  | .withDoc a d =>
-    if a.kind = Kind.update then .failed
-    else if env.valid a.idx = false then .failed
-    else if maxRecordSize ≤ d.len then .tooLarge
-    else if d.docOk then .created else .failed
-
-/-- the document an action contributes, with the index name of the action -/
-def storedOf (env : Env) : Action → List (Nat × Nat)
-  | .single _ => []
-  | .withDoc a d =>
-    if a.kind ≠ Kind.update ∧ env.valid a.idx = true ∧ d.len < maxRecordSize ∧ d.docOk then [(a.idx, d.id)] else []
-
-def emptyLine : Line := { kind := .other, len := 0, docOk := false, id := 0, idx := 0 }
-
-/-- the body: complete actions, then optionally an index/create/update line whose document is
-missing, then optionally the trailing newline (= a final empty line) -/
-def bodyOf (acts : List Action) (dangling : Option Line) (nl : Bool) : List Line :=
-  acts.flatMap Action.lines ++ dangling.toList ++ (if nl then [emptyLine] else [])
-
-def expectedItems (env : Env) (acts : List Action) (dangling : Option Line) : List Status :=
-  acts.map (status env) ++ (dangling.map (fun _ => Status.failed)).toList
-
-/-- the (index name, document) pairs of the `created` items, in request order -/
-def created (env : Env) (acts : List Action) : List (Nat × Nat) := acts.flatMap (storedOf env)
-
-/-- the documents of the `created` items addressed to index name `x`, in request order -/
-def docsOf (env : Env) (acts : List Action) (x : Nat) : List Nat :=
-  ((created env acts).filter (·.1 == x)).map (·.2)
-
-/-- the loop on a well-formed body: items, accepted documents and `errors` flag at once (C15.1–C15.3 are its parts) -/
-theorem loop_spec (env : Env) (acts : List Action) (dangling : Option Line) (nl : Bool)
+/-- C15.1 (loop) one item per action, in request order, each determined by its own action only -/
+theorem items_per_action (env : Env) (acts : List Act) (dangling : Option Line) (nl : Bool)
     (hwf : ∀ a ∈ acts, a.wf) (hd : ∀ l, dangling = some l → l.kind ≠ Kind.other ∧ 0 < l.len) :
-    (handle env (bodyOf acts dangling nl)).items = expectedItems env acts dangling ∧
-    (handle env (bodyOf acts dangling nl)).ples = created env acts ∧
-    (handle env (bodyOf acts dangling nl)).overallError = (expectedItems env acts dangling).any (· ≠ Status.created) :=
-  Lemmas.C15.handle_spec env
-    (fun a => match a with | .single l => .single l | .withDoc a d => .withDoc a d)
-    Action.lines Action.wf (status env) (storedOf env)
-    (by intro a; cases a <;> rfl) (by intro a h; cases a <;> exact h)
-    (by intro a; cases a <;> rfl) (by intro a; cases a <;> rfl) acts dangling nl hwf hd
+    (handle Version.fixed env (bodyOf acts dangling nl)).items = loopItems env acts dangling :=
+  (handle_spec env acts dangling nl hwf hd).1
 
-/-- every accepted document was addressed to a valid index name -/
-theorem created_have_valid_index (env : Env) (acts : List Action) : ∀ p ∈ created env acts, env.valid p.1 = true := by
-  intro p hp
-  obtain ⟨a, _, hpa⟩ := List.mem_flatMap.1 hp
-  cases a with
-  | single l => simp [storedOf] at hpa
-  | withDoc x d =>
-    by_cases h : x.kind ≠ Kind.update ∧ env.valid x.idx = true ∧ d.len < maxRecordSize ∧ d.docOk
-    · simp only [storedOf, if_pos h, List.mem_singleton] at hpa
-      rw [hpa]; exact h.2.1
-    · simp only [storedOf, if_neg h] at hpa
-      cases hpa
-
-/-- C15.1 one item per action, in request order, each determined by its own action only -/
-theorem items_per_action (env : Env) (acts : List Action) (dangling : Option Line) (nl : Bool)
+/-- C15.2 (loop) created ⇔ accepted for the store: the events the loop keeps (`allPLEs`) are exactly those of
+the items it answers created, in order, each under the index name of its own action and tagged with the position
+of its own item -/
+theorem stored_iff_created (env : Env) (acts : List Act) (dangling : Option Line) (nl : Bool)
     (hwf : ∀ a ∈ acts, a.wf) (hd : ∀ l, dangling = some l → l.kind ≠ Kind.other ∧ 0 < l.len) :
-    (handle env (bodyOf acts dangling nl)).items = expectedItems env acts dangling :=
-  (loop_spec env acts dangling nl hwf hd).1
+    (handle Version.fixed env (bodyOf acts dangling nl)).ples = plesFrom env acts 0 ∧
+    ((handle Version.fixed env (bodyOf acts dangling nl)).ples.map (fun p => (p.1, p.2.1))) = acts.flatMap (Act.storedOf env) ∧
+    (∀ a ∈ acts, (a.storedOf env ≠ [] ↔ a.status env = Status.created)) := by
+  have h := (handle_spec env acts dangling nl hwf hd).2.1
+  refine ⟨h, ?_, fun a _ => storedOf_ne_nil_iff env a⟩
+  rw [h]; exact plesFrom_proj env acts 0
 
-/-- C15.2 created ⇔ accepted for the store: the documents the loop keeps (`allPLEs`) are exactly those of the
-created items, in order, each under the index name of its own action -/
-theorem stored_iff_created (env : Env) (acts : List Action) (dangling : Option Line) (nl : Bool)
+/-- C15.3 `errors` of the response is true iff some item of the response is not `created` (400, 413 or 503) -/
+theorem errors_iff_some_failed (env : Env) (acts : List Act) (dangling : Option Line) (nl : Bool)
     (hwf : ∀ a ∈ acts, a.wf) (hd : ∀ l, dangling = some l → l.kind ≠ Kind.other ∧ 0 < l.len) :
-    (handle env (bodyOf acts dangling nl)).ples = acts.flatMap (storedOf env) ∧
-    (∀ a ∈ acts, (storedOf env a ≠ [] ↔ status env a = Status.created)) := by
-  refine ⟨(loop_spec env acts dangling nl hwf hd).2.1, ?_⟩
-  intro a _
-  cases a with
-  | single l => exact Lemmas.C15.storedOf_ne_nil_iff env (.single l)
-  | withDoc x d => exact Lemmas.C15.storedOf_ne_nil_iff env (.withDoc x d)
+    (handleReq env (bodyOf acts dangling nl)).errors = (handleReq env (bodyOf acts dangling nl)).items.any (· ≠ Status.created) := by
+  rw [final_errors env acts dangling nl hwf hd, final_items env acts dangling nl hwf hd]; rfl
 
-/-- C15.3 `errors` is true iff some item failed (400 or 413) -/
-theorem errors_iff_some_failed (env : Env) (acts : List Action) (dangling : Option Line) (nl : Bool)
-    (hwf : ∀ a ∈ acts, a.wf) (hd : ∀ l, dangling = some l → l.kind ≠ Kind.other ∧ 0 < l.len) :
-    (handle env (bodyOf acts dangling nl)).overallError = (expectedItems env acts dangling).any (· ≠ Status.created) :=
-  (loop_spec env acts dangling nl hwf hd).2.2
-
-/-- C15.4 locality: replacing one action (and its document) by any other changes that item only -/
-theorem local_failure (env : Env) (pre post : List Action) (a a' : Action) (nl : Bool)
+/-- C15.4 locality in the loop: replacing one action (and its document) by any other changes that item only -/
+theorem local_failure (env : Env) (pre post : List Act) (a a' : Act) (nl : Bool)
     (hwf : ∀ x ∈ pre ++ a :: post, x.wf) (hwf' : a'.wf) :
-    ∃ s s', (handle env (bodyOf (pre ++ a :: post) none nl)).items = pre.map (status env) ++ s :: post.map (status env) ∧
-            (handle env (bodyOf (pre ++ a' :: post) none nl)).items = pre.map (status env) ++ s' :: post.map (status env) := by
+    ∃ s s', (handle Version.fixed env (bodyOf (pre ++ a :: post) none nl)).items = pre.map (Act.status env) ++ s :: post.map (Act.status env) ∧
+            (handle Version.fixed env (bodyOf (pre ++ a' :: post) none nl)).items = pre.map (Act.status env) ++ s' :: post.map (Act.status env) := by
   have hwf2 : ∀ x ∈ pre ++ a' :: post, x.wf := by
     intro x hx
     rcases List.mem_append.1 hx with h | h
@@ -133,174 +63,217 @@ theorem local_failure (env : Env) (pre post : List Action) (a a' : Action) (nl :
     · rcases List.mem_cons.1 h with h | h
       · exact h ▸ hwf'
       · exact hwf x (List.mem_append_right _ (List.mem_cons_of_mem _ h))
-  refine ⟨status env a, status env a', ?_, ?_⟩
+  refine ⟨a.status env, a'.status env, ?_, ?_⟩
   · rw [items_per_action env _ none nl hwf (by intro l h; cases h)]
-    simp [expectedItems]
+    simp [loopItems, tailItems]
   · rw [items_per_action env _ none nl hwf2 (by intro l h; cases h)]
-    simp [expectedItems]
+    simp [loopItems, tailItems]
 
-/-! ### after the loop: several indexes per request, the store -/
+/-- C15.5 the response: one item per action, in request order; the item of an action is the loop's, except that
+a created item becomes `unavailable` exactly when the store refused the batch of its index name -/
+theorem response_items (env : Env) (acts : List Act) (dangling : Option Line) (nl : Bool)
+    (hwf : ∀ a ∈ acts, a.wf) (hd : ∀ l, dangling = some l → l.kind ≠ Kind.other ∧ 0 < l.len) :
+    (handleReq env (bodyOf acts dangling nl)).items = finalItems env acts dangling :=
+  final_items env acts dangling nl hwf hd
 
-/-- C15.5 every document acknowledged as created is handed to the store exactly once under ITS index name, in
+/-- C15.6 every document the loop accepted is handed to the store exactly once under ITS index name, in
 request order per index: for every index name `x`, what is handed over under `x` is — as a list, so with
-multiplicity and order — the created documents of the actions addressed to `x`, and there is at most one batch
+multiplicity and order — the accepted documents of the actions addressed to `x`, and there is at most one batch
 for `x`.  For every request, over any number of index names in any interleaving. -/
-theorem handed_once_under_its_index (env : Env) (acts : List Action) (dangling : Option Line) (nl : Bool)
+theorem handed_once_under_its_index (env : Env) (acts : List Act) (dangling : Option Line) (nl : Bool)
     (hwf : ∀ a ∈ acts, a.wf) (hd : ∀ l, dangling = some l → l.kind ≠ Kind.other ∧ 0 < l.len) (x : Nat) :
-    (handleReq env (bodyOf acts dangling nl)).handedUnder x = (created env acts).filter (·.1 == x) ∧
+    ((handleReq env (bodyOf acts dangling nl)).handedUnder x).map (fun p => (p.1, p.2.1)) = (created env acts).filter (·.1 == x) ∧
     ((handleReq env (bodyOf acts dangling nl)).calls.filter (·.idx == x)).length ≤ 1 := by
-  have hp := (loop_spec env acts dangling nl hwf hd).2.1
-  have e : handleReq env (bodyOf acts dangling nl) =
-      { st := handle env (bodyOf acts dangling nl), calls := Lemmas.C15.callsOf env (created env acts) } := by
-    rw [← hp]; rfl
-  rw [e]
-  exact ⟨Lemmas.C15.handedUnder_callsOf env _ _ x, Lemmas.C15.callsOf_count env _ x⟩
+  have hp := (handle_spec env acts dangling nl hwf hd).2.1
+  have hc : (handleReq env (bodyOf acts dangling nl)).calls = callsOf env (plesFrom env acts 0) := by
+    rw [handleReq_calls, hp]
+  refine ⟨?_, by rw [hc]; exact callsOf_count env _ x⟩
+  rw [handedUnder_callsOf env _ _ hc x, ← plesFrom_proj env acts 0, List.filter_map]
+  rfl
 
-/-- C15.6 no document is handed to the store under another index: every batch consists of documents whose own
+/-- C15.7 no document is handed to the store under another index: every batch consists of documents whose own
 index name is the batch's, is not empty, is never turned away by ProcessIndexRequestPle's own checks (index-name
 mismatch, invalid name), and reaches the store under the real index of its name (an alias resolved) -/
-theorem no_document_under_another_index (env : Env) (acts : List Action) (dangling : Option Line) (nl : Bool)
+theorem no_document_under_another_index (env : Env) (acts : List Act) (dangling : Option Line) (nl : Bool)
     (hwf : ∀ a ∈ acts, a.wf) (hd : ∀ l, dangling = some l → l.kind ≠ Kind.other ∧ 0 < l.len) :
     ∀ c ∈ (handleReq env (bodyOf acts dangling nl)).calls,
       (∀ p ∈ c.docs, p.1 = c.idx) ∧ c.docs ≠ [] ∧
       (c.res = .stored (env.resolve c.idx) ∨ c.res = .refused (env.resolve c.idx)) := by
   intro c hc
-  have hp := (loop_spec env acts dangling nl hwf hd).2.1
-  rw [Lemmas.C15.handleReq_calls, hp] at hc
-  obtain ⟨h1, h2, _, h4⟩ := Lemmas.C15.callsOf_res env _ (created_have_valid_index env acts) c hc
+  have hp := (handle_spec env acts dangling nl hwf hd).2.1
+  rw [handleReq_calls, hp] at hc
+  obtain ⟨h1, h2, _, h4⟩ := callsOf_res env _ (plesFrom_valid env acts 0) c hc
   exact ⟨h2, h4, h1⟩
 
-/-- C15.7 the response never depends on the store: whatever the store does with the batches, items, `errors`
-and the processed count are the same (the error of the store call is only logged) -/
-theorem response_independent_of_store (env : Env) (store' : Nat → List Nat → Bool) (body : List Line) :
-    (handleReq { env with store := store' } body).st = (handleReq env body).st := by
-  have hstep : ∀ s l r, stepAction { env with store := store' } s l r = stepAction env s l r := by
+/-- the documents of the actions whose RESPONSE ITEM is `created` and that address index name `x`, in request
+order — read off the response itself, whatever code produced it -/
+def ackedDocs (items : List Status) (acts : List Act) (x : Nat) : List Nat :=
+  ((acts.zip items).filter (fun ai => ai.2 == Status.created && ai.1.idxOf == x)).map (fun ai => ai.1.docId)
+
+/-- the full statement of "created ⇔ stored" for a bulk handler: for every request, every index-name predicate,
+alias table and store behaviour, and every index name, the documents the store took under it are exactly — in
+order, each once — the documents of the items the response reports as created -/
+def AcknowledgedIsStored (handler : Env → List Line → Resp) : Prop :=
+  ∀ (env : Env) (acts : List Act) (dangling : Option Line) (nl : Bool),
+    (∀ a ∈ acts, a.wf) → (∀ l, dangling = some l → l.kind ≠ Kind.other ∧ 0 < l.len) →
+    ∀ x, (handler env (bodyOf acts dangling nl)).storedUnder x =
+      ackedDocs (handler env (bodyOf acts dangling nl)).items acts x
+
+/-- reading the created documents off a response that has one item per action -/
+theorem ackedDocs_of_map (f : Act → Status) (acts : List Act) (t : List Status) (x : Nat) :
+    ackedDocs (acts.map f ++ t) acts x = (acts.filter (fun a => f a == Status.created && a.idxOf == x)).map Act.docId := by
+  unfold ackedDocs
+  induction acts with
+  | nil => simp
+  | cons a r ih =>
+    simp only [List.map_cons, List.cons_append, List.zip_cons_cons, List.filter_cons]
+    by_cases h : (f a == Status.created && a.idxOf == x) = true
+    · simp only [h, if_true, List.map_cons, ih]
+    · have h' : (f a == Status.created && a.idxOf == x) = false := by simpa using h
+      simp only [h', Bool.false_eq_true, if_false]
+      exact ih
+
+/-- C15.8 created ⇔ stored, at full strength, for the repaired code: whatever the store does with the batches -/
+theorem acknowledged_is_stored : AcknowledgedIsStored handleReq := by
+  intro env acts dangling nl hwf hd x
+  rw [final_items env acts dangling nl hwf hd, stored_eq_finalDocs env acts dangling nl hwf hd x,
+    ackedDocs_of_map]
+  rfl
+
+/-- before repair c15-3 the statement was false: one `index` action with a good document, a store that refuses —
+the item is answered `created`, nothing is stored -/
+theorem acknowledged_is_stored_old_counterexample_store :
+    ¬ AcknowledgedIsStored (handleReqV { kibanaAcked := false, storeErrorIgnored := true }) := by
+  intro h
+  have := h { valid := fun _ => true, kibana := fun _ => false, resolve := id, store := fun _ _ => false }
+    [.withDoc ⟨.index, 29, true, 0, 0⟩ ⟨.other, 20, true, 7, 0⟩] none true
+    (by intro a ha; simp at ha; subst ha; simp [Act.wf]) (by intro l hl; cases hl) 0
+  revert this
+  decide
+
+/-- before repair c15-5 the statement was false: one `index` action for a `.kibana` index name with a good
+document, a store that never fails — the item is answered `created`, the document goes nowhere -/
+theorem acknowledged_is_stored_old_counterexample_kibana :
+    ¬ AcknowledgedIsStored (handleReqV { kibanaAcked := true, storeErrorIgnored := false }) := by
+  intro h
+  have := h { valid := fun _ => true, kibana := fun _ => true, resolve := id, store := fun _ _ => true }
+    [.withDoc ⟨.index, 29, true, 0, 0⟩ ⟨.other, 20, true, 7, 0⟩] none true
+    (by intro a ha; simp at ha; subst ha; simp [Act.wf]) (by intro l hl; cases hl) 0
+  revert this
+  decide
+
+/-- and so for the code before both repairs -/
+theorem acknowledged_is_stored_old_counterexample : ¬ AcknowledgedIsStored handleReqOld := by
+  intro h
+  have := h { valid := fun _ => true, kibana := fun _ => false, resolve := id, store := fun _ _ => false }
+    [.withDoc ⟨.index, 29, true, 0, 0⟩ ⟨.other, 20, true, 7, 0⟩] none true
+    (by intro a ha; simp at ha; subst ha; simp [Act.wf]) (by intro l hl; cases hl) 0
+  revert this
+  decide
+
+/-- C15.8a a store failure is local to its index: if the store accepts the batch of index name `x`, then exactly
+the documents the loop accepted for `x` are stored under it, in order, and every action addressed to `x` keeps
+the loop's status — whatever happens to the other batches -/
+theorem store_failure_local (env : Env) (acts : List Act) (dangling : Option Line) (nl : Bool)
+    (hwf : ∀ a ∈ acts, a.wf) (hd : ∀ l, dangling = some l → l.kind ≠ Kind.other ∧ 0 < l.len) (x : Nat)
+    (hx : env.store (env.resolve x) (docsOf env acts x) = true) :
+    (handleReq env (bodyOf acts dangling nl)).storedUnder x = docsOf env acts x ∧
+    (∀ a ∈ acts, a.idxOf = x → finalStatus env acts a = a.status env) := by
+  constructor
+  · have hp := (handle_spec env acts dangling nl hwf hd).2.1
+    rw [storedUnder_callsOf env _ (plesFrom env acts 0) (by rw [handleReq_calls, hp]) x (plesFrom_valid env acts 0),
+      docs_plesFrom, if_pos hx]
+  · intro a _ hax
+    have : refusedIdx env acts a.idxOf = false := by simp [refusedIdx, hax, hx]
+    simp [finalStatus, this]
+
+/-- C15.8b when the store refuses the batch of index name `x`: nothing of it is stored, and no action addressed
+to `x` is answered `created` — the items the loop had answered created are `unavailable` -/
+theorem refused_batch_is_reported (env : Env) (acts : List Act) (dangling : Option Line) (nl : Bool)
+    (hwf : ∀ a ∈ acts, a.wf) (hd : ∀ l, dangling = some l → l.kind ≠ Kind.other ∧ 0 < l.len) (x : Nat)
+    (hx : env.store (env.resolve x) (docsOf env acts x) = false) :
+    (handleReq env (bodyOf acts dangling nl)).storedUnder x = [] ∧
+    (∀ a ∈ acts, a.idxOf = x → a.status env = Status.created → finalStatus env acts a = Status.unavailable) ∧
+    (∀ a ∈ acts, a.idxOf = x → finalStatus env acts a ≠ Status.created) := by
+  have href : ∀ a : Act, a.idxOf = x → refusedIdx env acts a.idxOf = true := by
+    intro a hax; simp [refusedIdx, hax, hx]
+  refine ⟨?_, ?_, ?_⟩
+  · have hp := (handle_spec env acts dangling nl hwf hd).2.1
+    rw [storedUnder_callsOf env _ (plesFrom env acts 0) (by rw [handleReq_calls, hp]) x (plesFrom_valid env acts 0),
+      docs_plesFrom, hx]
+    rfl
+  · intro a _ hax hc
+    simp [finalStatus, hc, href a hax]
+  · intro a _ hax
+    by_cases hc : a.status env = Status.created
+    · simp [finalStatus, hc, href a hax]
+    · rw [finalStatus_ne_created_of env acts a hc]; exact hc
+
+/-- the code before repair c15-3: the response never depended on the store — whatever the store did with the
+batches, items and `errors` were the same (the error of the store call was only logged) -/
+theorem response_independent_of_store_old (env : Env) (store' : Nat → List Nat → Bool) (body : List Line) :
+    (handleReqOld { env with store := store' } body).items = (handleReqOld env body).items ∧
+    (handleReqOld { env with store := store' } body).errors = (handleReqOld env body).errors := by
+  have hstep : ∀ s l r, stepAction Version.old { env with store := store' } s l r = stepAction Version.old env s l r := by
     intro s l r; rfl
-  have hloop : ∀ f s b, loop { env with store := store' } f s b = loop env f s b := by
+  have hloop : ∀ f s b, loop Version.old { env with store := store' } f s b = loop Version.old env f s b := by
     intro f
     induction f with
     | zero => intro s b; rfl
     | succ f ih => intro s b; simp only [loop, hstep, ih]
-  exact hloop _ _ _
+  have hh : handle Version.old { env with store := store' } body = handle Version.old env body := hloop _ _ _
+  have e1 : ∀ e : Env, (handleReqOld e body).items = (handle Version.old e body).items := fun _ => rfl
+  have e2 : ∀ e : Env, (handleReqOld e body).errors = (handle Version.old e body).overallError := fun _ => rfl
+  rw [e1, e1, e2, e2, hh]
+  exact ⟨rfl, rfl⟩
 
-/-- the full statement of "created ⇔ stored" at the store: for every request and every store behaviour, the
-documents the store took under each index name are exactly the created documents addressed to it -/
-def AcknowledgedIsStored : Prop :=
-  ∀ (env : Env) (acts : List Action) (dangling : Option Line) (nl : Bool),
-    (∀ a ∈ acts, a.wf) → (∀ l, dangling = some l → l.kind ≠ Kind.other ∧ 0 < l.len) →
-    ∀ x, (handleReq env (bodyOf acts dangling nl)).storedUnder x = docsOf env acts x
-
-/-- guard: the store accepts every batch of this request (decidable: finitely many batches) -/
-def storeAccepts (env : Env) (acts : List Action) : Bool :=
-  ((created env acts).map (·.1)).all (fun x => env.store (env.resolve x) (docsOf env acts x))
-
-/-- what the store holds for index name `x` after the request, exactly: the created documents addressed to `x` if
-the store accepted their batch, nothing otherwise -/
-theorem stored_under_exact (env : Env) (acts : List Action) (dangling : Option Line) (nl : Bool)
-    (hwf : ∀ a ∈ acts, a.wf) (hd : ∀ l, dangling = some l → l.kind ≠ Kind.other ∧ 0 < l.len) (x : Nat) :
-    (handleReq env (bodyOf acts dangling nl)).storedUnder x =
-      if env.store (env.resolve x) (docsOf env acts x) then docsOf env acts x else [] := by
-  have hp := (loop_spec env acts dangling nl hwf hd).2.1
-  have e : handleReq env (bodyOf acts dangling nl) =
-      { st := handle env (bodyOf acts dangling nl), calls := Lemmas.C15.callsOf env (created env acts) } := by
-    rw [← hp]; rfl
-  rw [e]
-  exact Lemmas.C15.storedUnder_callsOf env _ _ x (created_have_valid_index env acts)
-
-/-- C15.8a a store failure is local to its index: if the store accepts the batch of index name `x`, then exactly
-the created documents addressed to `x` are stored under it, in order — whatever happens to the other batches -/
-theorem store_failure_local (env : Env) (acts : List Action) (dangling : Option Line) (nl : Bool)
-    (hwf : ∀ a ∈ acts, a.wf) (hd : ∀ l, dangling = some l → l.kind ≠ Kind.other ∧ 0 < l.len) (x : Nat)
-    (hx : env.store (env.resolve x) (docsOf env acts x) = true) :
-    (handleReq env (bodyOf acts dangling nl)).storedUnder x = docsOf env acts x := by
-  rw [stored_under_exact env acts dangling nl hwf hd x, if_pos hx]
-
-/-- C15.8b what the code does when the store refuses a batch: nothing of it is stored, and every one of its
-items has nevertheless been answered `created` (the items are those of the per-action specification) -/
-theorem refused_batch_is_acknowledged (env : Env) (acts : List Action) (dangling : Option Line) (nl : Bool)
-    (hwf : ∀ a ∈ acts, a.wf) (hd : ∀ l, dangling = some l → l.kind ≠ Kind.other ∧ 0 < l.len) (x : Nat)
-    (hx : env.store (env.resolve x) (docsOf env acts x) = false) :
-    (handleReq env (bodyOf acts dangling nl)).storedUnder x = [] ∧
-    (handleReq env (bodyOf acts dangling nl)).st.items = expectedItems env acts dangling := by
-  refine ⟨?_, items_per_action env acts dangling nl hwf hd⟩
-  rw [stored_under_exact env acts dangling nl hwf hd x, hx]; rfl
-
-/-- C15.8 partial statement: when the store accepts every batch of the request, created ⇔ stored holds for
-every index name — and this guard is EXACTLY the class where it holds -/
-theorem acknowledged_is_stored_partial (env : Env) (acts : List Action) (dangling : Option Line) (nl : Bool)
-    (hwf : ∀ a ∈ acts, a.wf) (hd : ∀ l, dangling = some l → l.kind ≠ Kind.other ∧ 0 < l.len) :
-    storeAccepts env acts = true ↔
-      ∀ x, (handleReq env (bodyOf acts dangling nl)).storedUnder x = docsOf env acts x := by
-  constructor
-  · intro hg x
-    rw [stored_under_exact env acts dangling nl hwf hd x]
-    by_cases hx : x ∈ (created env acts).map (·.1)
-    · have := List.all_eq_true.1 hg x hx
-      rw [if_pos this]
-    · have : docsOf env acts x = [] := by
-        unfold docsOf
-        rw [Lemmas.C15.filter_nil_of_not_mem _ x hx]; rfl
-      rw [this]; split <;> rfl
-  · intro h
-    unfold storeAccepts
-    rw [List.all_eq_true]
-    intro x hx
-    have hne : docsOf env acts x ≠ [] := by
-      obtain ⟨p, hp, hpx⟩ := List.mem_map.1 hx
-      unfold docsOf
-      intro hnil
-      have hmem : p ∈ (created env acts).filter (·.1 == x) := List.mem_filter.2 ⟨hp, by simp [hpx]⟩
-      have : p.2 ∈ ((created env acts).filter (·.1 == x)).map (·.2) := List.mem_map.2 ⟨p, hmem, rfl⟩
-      rw [hnil] at this; cases this
-    have hx' := h x
-    rw [stored_under_exact env acts dangling nl hwf hd x] at hx'
-    cases hs : env.store (env.resolve x) (docsOf env acts x)
-    · rw [hs] at hx'; exact absurd hx'.symm hne
-    · rfl
-
-/-- a store that never fails satisfies the guard for every request -/
-theorem storeAccepts_of_never_fails (env : Env) (h : ∀ i ds, env.store i ds = true) (acts : List Action) :
-    storeAccepts env acts = true := by
-  unfold storeAccepts
-  rw [List.all_eq_true]
-  intro x _
-  exact h _ _
-
-/-- the code as it is violates the full statement: one `index` action with a good document, a store that
-refuses — the item is answered `created`, nothing is stored -/
-theorem acknowledged_is_stored_counterexample : ¬ AcknowledgedIsStored := by
-  intro h
-  have := h { valid := fun _ => true, resolve := id, store := fun _ _ => false }
-    [.withDoc ⟨.index, 29, true, 0, 0⟩ ⟨.other, 20, true, 7, 0⟩] none true
-    (by intro a ha; simp at ha; subst ha; simp [Action.wf]) (by intro l hl; cases hl) 0
-  revert this
-  decide
-
-/-- the guard is satisfiable, with several indexes, an alias and a failing item in the request -/
-example : storeAccepts { valid := fun x => x != 9, resolve := fun x => if x == 4 then 0 else x, store := fun _ _ => true }
-    [.withDoc ⟨.index, 29, true, 0, 0⟩ ⟨.other, 20, true, 1, 0⟩,
-     .withDoc ⟨.index, 29, true, 0, 4⟩ ⟨.other, 20, true, 2, 0⟩,
-     .withDoc ⟨.index, 29, true, 0, 9⟩ ⟨.other, 20, true, 3, 0⟩] = true := by decide
+/-- C15.9 a document for a `.kibana` index name, which nothing stores, is never answered created and is never
+handed to the store -/
+theorem kibana_item_fails (env : Env) (a : Act) (hk : env.kibana a.idxOf = true) :
+    a.status env ≠ Status.created ∧ a.storedOf env = [] := by
+  have hs : a.storedOf env = [] := by
+    cases a with
+    | single l => rfl
+    | withDoc x d =>
+      have hk' : env.kibana x.idx = true := hk
+      simp [Act.storedOf, hk']
+  refine ⟨?_, hs⟩
+  intro hc
+  exact (storedOf_ne_nil_iff env a).2 hc hs
 
 /-- non-vacuity: an oversize document followed by a malformed one and a trailing delete -/
 example :
-    (handle { valid := fun _ => true, resolve := id, store := fun _ _ => true }
+    (handle Version.fixed { valid := fun _ => true, kibana := fun _ => false, resolve := id, store := fun _ _ => true }
       (bodyOf [.withDoc ⟨.index, 29, true, 1, 0⟩ ⟨.other, 63021, true, 2, 0⟩,
                .withDoc ⟨.create, 30, true, 3, 0⟩ ⟨.other, 20, false, 4, 0⟩,
                .single ⟨.other, 40, true, 5, 0⟩] none false)).items = [.tooLarge, .failed, .failed] := by
   decide
 
 /-- non-vacuity, several indexes: index order A,A,B,A gives one batch for A with its three documents in request
-order and one batch for B; when the store refuses B's batch only B's document is lost, all four items are `created` -/
+order and one batch for B; when the store refuses B's batch only B's document is lost and only B's item is
+`unavailable`; a `.kibana` item in between fails on its own -/
 example :
-    let r := handleReq { valid := fun _ => true, resolve := id, store := fun i _ => i != 1 }
+    let r := handleReq { valid := fun _ => true, kibana := fun x => x == 5, resolve := id, store := fun i _ => i != 1 }
       (bodyOf [.withDoc ⟨.index, 29, true, 0, 0⟩ ⟨.other, 20, true, 1, 0⟩,
                .withDoc ⟨.index, 29, true, 0, 0⟩ ⟨.other, 20, true, 2, 0⟩,
+               .withDoc ⟨.index, 29, true, 0, 5⟩ ⟨.other, 20, true, 9, 0⟩,
                .withDoc ⟨.index, 29, true, 0, 1⟩ ⟨.other, 20, true, 3, 0⟩,
                .withDoc ⟨.index, 29, true, 0, 0⟩ ⟨.other, 20, true, 4, 0⟩] none true)
-    r.st.items = [.created, .created, .created, .created] ∧ r.st.overallError = false ∧
-    r.calls = [⟨0, [(0, 1), (0, 2), (0, 4)], .stored 0⟩, ⟨1, [(1, 3)], .refused 1⟩] ∧
+    r.items = [.created, .created, .failed, .unavailable, .created] ∧ r.errors = true ∧ r.numCreated = 3 ∧
+    r.calls = [⟨0, [(0, 1, 0), (0, 2, 1), (0, 4, 4)], .stored 0⟩, ⟨1, [(1, 3, 3)], .refused 1⟩] ∧
     r.storedUnder 0 = [1, 2, 4] ∧ r.storedUnder 1 = [] := by
+  decide
+
+/-- the same request on the code before the repairs: five items `created`, `errors` false -/
+example :
+    let r := handleReqOld { valid := fun _ => true, kibana := fun x => x == 5, resolve := id, store := fun i _ => i != 1 }
+      (bodyOf [.withDoc ⟨.index, 29, true, 0, 0⟩ ⟨.other, 20, true, 1, 0⟩,
+               .withDoc ⟨.index, 29, true, 0, 0⟩ ⟨.other, 20, true, 2, 0⟩,
+               .withDoc ⟨.index, 29, true, 0, 5⟩ ⟨.other, 20, true, 9, 0⟩,
+               .withDoc ⟨.index, 29, true, 0, 1⟩ ⟨.other, 20, true, 3, 0⟩,
+               .withDoc ⟨.index, 29, true, 0, 0⟩ ⟨.other, 20, true, 4, 0⟩] none true)
+    r.items = [.created, .created, .created, .created, .created] ∧ r.errors = false ∧
+    r.storedUnder 0 = [1, 2, 4] ∧ r.storedUnder 1 = [] ∧ r.storedUnder 5 = [] := by
   decide
 
 end SigModel.Props.C15
